@@ -21,7 +21,7 @@ ASSUMPTIONS = [
     'sensitivities of point-mass (pooled/heterogeneous) dimensions are only required to be consistent between the '
     'separate and the hierarchical return form and to equal the hierarchical derivative in the reduced form']
 REQUIRED = ['kind:gauss', 'kind:lognorm', 'kind:trunc', 'kind:pooled', 'kind:hetero', 'cov', 'comp', 'red',
-            'layout:matrix', 'layout:tensor', 'upstream', 'noncentered', 'oos', 'noncentered_zero_scale']
+            'layout:matrix', 'layout:tensor', 'upstream', 'noncentered', 'oos', 'noncentered_zero_scale', 'reduced_part:all_fixed']
 
 
 @st.composite
@@ -43,13 +43,16 @@ def _spec(draw):
     zero = False
     if pop['kind'] != 'red':
         theta, zero = popgen.zero_scale(draw, pop, n_ids, theta, p=0.3)
+    nested_red = None
+    if pop['kind'] == 'comp':
+        pop, theta, nested_red = popgen.nest_reduced(draw, pop, n_ids, theta, p=0.12)
     n_dim = ref.pop_n_dim(pop)
     z = draw(gen.mat(gen.real(-3, 3), n_ids, n_dim))
     U = draw(gen.mat(gen.real(-3, 3), n_ids, n_dim)) if gen.chance(draw, 0.5) else None
     oos = None
     if pop['kind'] in ('gauss', 'lognorm', 'trunc') and pop.get('centered', True) and gen.chance(draw, 0.1):
         oos = draw(st.integers(0, n_dim - 1))
-    return dict(pop=pop, n_ids=n_ids, theta=theta, z=z, cov=cov, U=U, layout=layout, oos=oos, zero_scale=zero)
+    return dict(pop=pop, n_ids=n_ids, theta=theta, z=z, cov=cov, U=U, layout=layout, oos=oos, zero_scale=zero, nested_red=nested_red)
 
 
 def strategy(tier):
@@ -72,6 +75,10 @@ def classify(spec):
         labs.append('oos')
     if spec.get('zero_scale'):
         labs.append('noncentered_zero_scale')
+    if spec.get('nested_red'):
+        labs.append('reduced_part')
+        if spec['nested_red'] == 'all':
+            labs.append('reduced_part:all_fixed')
     return sorted(set(labs))
 
 
@@ -251,6 +258,16 @@ def check(case):
             if sep is not None:
                 _gtol(case, T.sum(axis=0).flatten(), sep[1], 'sum over individuals of unflattened dtheta')
                 _gtol(case, dpsi2, sep[0], 'dpsi (flattened=False)')
+            # "reduce is prioritised over flattened": with both flags the hierarchical form is returned
+            r_a = m.compute_sensitivities(lay(theta), x.copy(), dlogp_dpsi=None if U is None else U.copy(), reduce=True)
+            r_b = m.compute_sensitivities(lay(theta), x.copy(), dlogp_dpsi=None if U is None else U.copy(), reduce=True,
+                                          flattened=False)
+            case.equal(len(r_b), len(r_a), 'length of the tuple returned for reduce=True, flattened=False', kind='shape')
+            case.equal(np.shape(r_b[1]), np.shape(r_a[1]), 'shape of the gradient for reduce=True, flattened=False vs '
+                       'reduce=True', kind='shape')
+            case.close(np.asarray(r_b[1], dtype=float), np.asarray(r_a[1], dtype=float), rtol=1e-12,
+                       what='gradient for reduce=True, flattened=False vs reduce=True')
+            case.close(r_b[0], r_a[0], rtol=1e-12, what='score for reduce=True, flattened=False vs reduce=True')
 
 
 def _extra_clauses(case, m, pop, n_ids, theta, x, cov, special, want, kw):
